@@ -109,6 +109,9 @@ LookupFailing(r) ==
 \*          listed : BOOLEAN, incl, full : Seq(limbs)   the two returned lists (inclusive=True / False),
 \*                                                       written out when short enough
 \*          cin : BOOLEAN, pin, pfull : Seq(BOOLEAN)     projection: cid \in incl, pid[k] \in incl / full]
+\* Only separations FROM THE CENTRE enter the clauses.  On lattice "gc" the harness therefore also uses "star"
+\* records: c = <<0,0>> is ANY sky position (lattice or not) and probe <<a,b>> lies a + b*eps degrees from it
+\* along a ray of arbitrary direction (HiGcSep(<<0,0>>, <<a,b>>) is that arc, folded at 180).
 \* -1 strictly inside the circle, 0 exactly on it (unconstrained), 1 outside
 CoverRC(r, k) == HiEdgeCmp(r.lat, r.c, r.probes[k], 1, r.rad)
 HiMember(x, s) == \E t \in DOMAIN s : s[t] = x
@@ -132,6 +135,7 @@ CoverFailing(r) ==
 \*          scale : <<>> (none) | <<m>> (scalar) | <<m_1..m_N1>> (per point)   small positive integers,
 \*          obs : Seq([var : STRING, err : STRING, counts : Seq(Nat)])]
 \*          one observation per way of calling (plain, precomputed ids, ids + reverse indices, depth, layout)
+\* (one-to-many "star" records: p1 = << <<0,0>> >> is any sky position, p2[j] the arc from it along some ray)
 PN1(r) == Len(r.p1)
 PN2(r) == Len(r.p2)
 PNBin(r) == Len(r.edges) - 1
